@@ -13,6 +13,8 @@ THEOREMS = {
             "Backend.C10_write_fault_local", "Backend.C10_process_event_local", "Backend.C10_fault_schedule_constant",
             "Backend.C10_at_most_once_under_faults", "Backend.C10_flush_visits_every_sink",
             "Backend.C10_flush_fault_loses_nothing", "Backend.C10_flush_flag_raised", "Backend.C10_backtrace_without_init",
+            "Backend.C10_unfaulted_exactly_once", "Backend.C10_order_under_faults", "Backend.C10_write_fault_reported",
+            "Backend.C10_flush_fault_reported",
             "Backend.c10Init_fresh", "Backend.C03_dispatch_exact", "Obligations.backendA_C10_structure",
             "Obligations.C10_extracted"],
     "C08": ["Backend.C08_started_inv", "Backend.C08_cfg_constant", "Backend.C08_accounting",
